@@ -18,7 +18,7 @@ LEVEL = "exploration"
 TECHNIQUE = CLAIMS[ID]["technique"]
 RULE = (
     "10 definitions (CSE-heavy, one with inputs named _t0.._t4, numbered sensor keys, a 5-state turn-rate model, a wide model, multi-sensor with multi-reading sensors, calibration, all four control x calibration "
-    "combinations) x declaration-order variants (every permutation of the state declaration order, reversed controls / "
+    "combinations) x declaration-order variants (every permutation of the state declaration order - every rotation and the reversal for definitions with more than 3 states -, reversed controls / "
     "calibrations / update-dict / calibration-map / noise dicts / sensors / readings, set vs list containers) x "
     "PYTHONHASHSEED in 0..7 (quick; 4 declaration variants per definition, 3 for the large ones) / 0..63 (thorough), every hash seed in its own interpreter process; observed: the "
     "full text of header and source from cpp.compile_ekf and cpp.compile, and the Python layout (Model.arglist, names of "
@@ -96,7 +96,11 @@ def variant(d, vi, perm):
 
 def variants(d, tier):
     st = sorted(d["state"])
-    perms = list(itertools.permutations(range(len(st))))
+    if len(st) <= 3:
+        perms = list(itertools.permutations(range(len(st))))
+    else:  # large definitions: every rotation and the reversal of the declaration order instead of all n! orders
+        idx = list(range(len(st)))
+        perms = [tuple(idx[r_:] + idx[:r_]) for r_ in range(len(st))] + [tuple(reversed(idx))]
     out = []
     flagsets = [0, 63, 21, 42] if tier == "quick" else [0, 63, 21, 42, 36, 27, 7, 56, 33, 30, 45, 18]
     if tier == "quick" and len(st) >= 5:
@@ -131,7 +135,7 @@ def run_worker(hashseed, jobs):
     try:
         env = dict(os.environ, PYTHONHASHSEED=str(hashseed))
         p = subprocess.run(["/venv/bin/python", "-W", "ignore", "-m", "fv.c15_worker", path], capture_output=True, text=True,
-                           env=env, cwd=core.REPO, timeout=1800)
+                           env=env, cwd=core.REPO, timeout=6000)
     finally:
         os.unlink(path)
     if p.returncode != 0:
